@@ -429,14 +429,16 @@ func (x *c11Expr) String() string {
 	return "Or(" + x.a.String() + "," + x.b.String() + ")"
 }
 
-var c11Names = [][]string{
-	{"a", "b", "c"},
-	{"a", "b", "c", "d"},
-	{"foo", "bar", "baz"},
-	{"feature-one", "f2", "x_y.z"},
-	{"nota", "android", "ore", "an"}, // keywords as prefixes of names
-	{"p:a", "p:b", "q:a"},
-	{"A", "Not", "AND"}, // keywords are case sensitive
+type c11NameSet struct{ feats, pool []string }
+
+var c11Names = []c11NameSet{
+	{[]string{"a", "b", "c"}, []string{"a", "b", "c", "zz"}},
+	{[]string{"a", "b", "c", "d"}, []string{"a", "b", "c", "d", "zz"}},
+	{[]string{"foo", "bar", "baz"}, []string{"foo", "bar", "baz", "fo"}},
+	{[]string{"feature-one", "f2", "x_y.z"}, []string{"feature-one", "f2", "x_y.z", "feature-on"}},
+	{[]string{"nota", "android", "ore", "an"}, []string{"nota", "android", "ore", "an", "no"}}, // keywords as prefixes of names
+	{[]string{"a", "b", "c"}, []string{"p:a", "b", "q:c", "p:zz", "x:y:a", ":b", "c:"}},        // prefixed names
+	{[]string{"A", "Not", "AND"}, []string{"A", "Not", "AND", "a"}},                             // keywords are case sensitive
 }
 
 // C11 part (i): the if-feature evaluator. Parts (ii)/(iii) are in c11_guard.go / c11_deviate.go.
@@ -486,10 +488,9 @@ func C11(ctx *core.Ctx) error {
 	er := r.Fork(11)
 	ne := ctx.Scale(400, 6000)
 	for i := 0; i < ne; i++ {
-		names := gen.Pick(er, c11Names)
-		feats := names
-		pool := append(append([]string{}, names...), "zz") // zz: never a feature
-		x := c11RandExpr(er, 1+er.Intn(6), pool)
+		ns := gen.Pick(er, c11Names)
+		feats := ns.feats
+		x := c11RandExpr(er, 1+er.Intn(6), ns.pool)
 		w := c11Write(er, x, []int{0, 0, 10, 40}[er.Intn(4)])
 		w0, w1 := gen.Pick(er, c11Pads), gen.Pick(er, c11Pads)
 		text := w0 + w.text + w1
@@ -503,7 +504,7 @@ func C11(ctx *core.Ctx) error {
 	mr := r.Fork(12)
 	fixed := []string{"", " ", "not(a)", "(a)and(b)", "(a)or(b)", "not (a or b) and c", "a and", "a or", "not", "( a", "a )", "a b", "()", "( )",
 		"a and and b", "a or or b", "and a", "or a", "not not", "((a)", "(a))", ")(", "a\tand\tb", "a\nor\n  b", "a and\r\nb", "a\x00b", "a\vb", "a\fand b",
-		"not(a)and(b)or(c)", "a(b)", "(a)b", "a and(b or c)", "not(not(a))", "a and not(b)", "nota", "a andb", "a orb c"}
+		"not(a)and(b)or(c)", "a(b)", "(a)b", "a and(b or c)", "not(not(a))", "a and not(b)", "nota", "a andb", "a orb c", "p:a", "p:a and q:b", "not p:c", ":a", "a:", "p:q:a or x", "(p:a)"}
 	for _, t := range fixed {
 		c11TextCase(ctx, t, c11ABC, "fixed")
 	}
